@@ -103,6 +103,14 @@ def keyMic (hmacMd5 hmacSha1 : Mac) (version : Nat) (kck frame : Bytes) : Option
   else if version = 2 then some ((hmacSha1 kck (micZeroed frame)).take 16)
   else none
 
+/-- what a passive observer that knows the PMK derives from a completed handshake: the PTK (640 bits: libtins keeps
+    four whole HMAC outputs; the standard's PRF-512 / PRF-384 are its prefixes), accepted exactly when the Key MIC of
+    message 4 verifies under its KCK; the cipher is CCMP for descriptor version 2, TKIP for version 1 -/
+def sessionKeys (H : Mac) (hmacMd5 hmacSha1 : Mac) (pmk aa spa anonce snonce : Bytes) (version : Nat)
+    (msg4 msg4Mic : Bytes) : Option (Bytes × Bool) :=
+  let ptk := ptk H pmk aa spa anonce snonce 640
+  if keyMic hmacMd5 hmacSha1 version (kck ptk) msg4 = some msg4Mic then some (ptk, version == 2) else none
+
 /-! ### The four-way handshake as a grammar (11.6.6)
 
     For one station pair the EAPOL-Key messages of valid histories are  ( M1⁺ [ M2⁺ [ M3⁺ [ M4⁺ ] ] ] )*  : an attempt
@@ -150,5 +158,73 @@ def Phase.next {α : Type} : Phase α → Msg → α → Option (Phase α × Opt
   | .got3 a b c, .m4, x => some (.done, some (a, b, c, x))
   | .done, .m4, _ => some (.done, none)
   | _, _, _ => none
+
+/-! ### Frames on the air (for the run-time oracle): which 802.11 frames are EAPOL-Key messages of a pairwise handshake,
+    which are beacons, what they say — written from the frame formats of clause 8, on the bytes -/
+
+def be16At (b : Bytes) (i : Nat) : Nat := (b.getD i 0).toNat * 256 + (b.getD (i + 1) 0).toNat
+
+/-- LLC/SNAP header of an EAPOL frame (RFC 1042 encapsulation, EtherType 88-8E) -/
+def llcSnapEapol : Bytes := [0xaa, 0xaa, 3, 0, 0, 0, 0x88, 0x8e]
+
+structure KeyFrame where
+  ap : Bytes
+  sta : Bytes
+  fromAp : Bool
+  /-- the EAPOL-Key frame: protocol version … key data, `4 + packet body length` octets -/
+  eapol : Bytes
+deriving Repr
+
+/-- an unprotected Data / QoS Data frame between a station and its access point (to-DS with DA = BSSID, or from-DS with
+    SA = BSSID) that carries a complete EAPOL-Key frame with an RSN (2) or WPA (254) key descriptor -/
+def keyFrameOf (f : Bytes) : Option KeyFrame :=
+  let fc0 := f.getD 0 0
+  let fc1 := f.getD 1 0
+  let toDS := fc1 &&& 1 != 0
+  let fromDS := fc1 &&& 2 != 0
+  let qos := fc0 &&& 0x80 != 0
+  if f.length < 24 then none
+  else if fc0 &&& 0x7f != 0x08 then none                     -- protocol 0, type Data, subtype Data or QoS Data
+  else if fc1 &&& 0x40 != 0 then none                         -- not protected
+  else if qos && fc1 &&& 0x80 != 0 then none                  -- +HTC frames are not considered
+  else if toDS == fromDS then none
+  else
+    let body := f.drop (24 + (if qos then 2 else 0))
+    if body.take 8 != llcSnapEapol then none else
+    let e := body.drop 8
+    if e.length < 4 then none else
+    let total := 4 + be16At e 2
+    if e.length < total then none else
+    let e := e.take total
+    if total < 99 then none
+    else if e.getD 1 0 != 3 then none                         -- packet type EAPOL-Key
+    else if e.getD 4 0 != 2 && e.getD 4 0 != 254 then none
+    else if total < 99 + be16At e KeyField.keyDataLength.offset then none
+    else
+      let a1 := (f.drop 4).take 6
+      let a2 := (f.drop 10).take 6
+      let a3 := (f.drop 16).take 6
+      if toDS then (if a3 == a1 then some ⟨a1, a2, false, e⟩ else none)
+      else (if a3 == a2 then some ⟨a2, a1, true, e⟩ else none)
+
+/-- the elements of a management frame body: (id, information) pairs; `none` when a length runs past the end -/
+def elements : Nat → Bytes → Option (List (UInt8 × Bytes))
+  | 0, _ => some []
+  | fuel + 1, b =>
+    match b with
+    | id :: len :: rest =>
+      if rest.length < len.toNat then none
+      else (elements fuel (rest.drop len.toNat)).map fun l => (id, rest.take len.toNat) :: l
+    | _ => some []
+
+/-- a Beacon frame: its BSSID (address 3) and the SSID it announces (the first SSID element), if any -/
+def beaconOf (f : Bytes) : Option (Bytes × Option Bytes) :=
+  if f.length < 36 then none
+  else if f.getD 0 0 != 0x80 then none                        -- protocol 0, type Management, subtype Beacon
+  else if f.getD 1 0 &&& 3 != 0 then none
+  else
+    match elements f.length (f.drop 36) with
+    | none => none
+    | some els => some ((f.drop 16).take 6, (els.find? fun p => p.1 == 0).map (·.2))
 
 end Tins.Crypto.Spec
